@@ -9,12 +9,16 @@ from vstat import report  # noqa: E402
 
 
 from vstat.rewrites import *  # noqa: E402,F401,F403
-from vstat.rewrites import transformed  # noqa: E402
+from vstat.rewrites import transformed, EXTRA  # noqa: E402
+
+BASE_KINDS = ("format", "rename", "commute", "keywordize", "hoist", "invert-if", "yoda", "method-to-function", "else-after-return", "reverse-keywords", "fstring", "unpack-to-index",
+              "composed", "extract-helper", "explicit-defaults", "extract-method", "aug-to-assign", "if-to-ifexp")
 
 
 def main():
     bad = 0
-    for kind in ("format", "rename", "commute", "keywordize", "hoist", "invert-if", "yoda", "method-to-function", "else-after-return", "reverse-keywords", "fstring", "unpack-to-index", "composed", "extract-helper", "explicit-defaults", "extract-method", "aug-to-assign", "if-to-ifexp"):
+    kinds = tuple(sys.argv[1:]) or BASE_KINDS + tuple(EXTRA)
+    for kind in kinds:
         overlay = transformed(kind)
         for src in overlay.values():
             compile(src, "<variant>", "exec")
